@@ -287,10 +287,11 @@ impl Prop for C09 {
             }
         }
         let a = gen_any_state(ch, &space);
-        let b = if ch.prob(0.5) {
-            gen_near(ch, &space, &a)
-        } else {
-            gen_any_state(ch, &space)
+        let b = match ch.weighted(&[4.0, 4.0, 1.0]) {
+            0 => gen_near(ch, &space, &a),
+            1 => gen_any_state(ch, &space),
+            // the same configuration in another representation (-q, angle + 2 pi k): d must be ~0
+            _ => equivalent_repr(ch, &space, &a),
         };
         let c = if ch.prob(0.3) {
             gen_near(ch, &space, &b)
